@@ -151,6 +151,7 @@ func init() {
 		attributeRefusalReported(w, r, "C07")
 		c07PresentChildModelled(w, r, w.ctxTable())
 		collectedIsUsed(w, r, "C07")
+		declarationKindIsModelled(w, r, "C07", nil)
 		wholeInputRule(w, r, "C07") // declarations the parser never read get no type and no diagnostic
 		nameKeyedSetOverInline(w, r, "C07", func(fn *ssa.Function) bool { return isGeneratorFunc(fn) && recvNamedCore(fn) != "LuaWspGenerator" && roleOf(fn) != "test" }, "a generator remembers the packets it has written under their names and consults that set for inline objects too: of two inline objects that share a name (or an inline object named like a declared packet) only the first is emitted, and the members of the other are encoded with its layout")
 		wireModelFrame(w, r, "C07", framePackets, nil, map[string]bool{"Packet": true, "Field": true}, "a generator rewrites the packet list / a field list / the kind of a field in the shared model: the targets generated after it (and, for a list rewritten while it is being walked, the generator itself) no longer emit every declared packet and field")
